@@ -163,13 +163,17 @@ def run_case(case):
     sigs = set()
     if case["ranges"] == "nonflat":
         for name, fn in copies.items():
-            for bad in (torch.zeros(2, 3), torch.zeros(6, 1), torch.zeros(1, 6), torch.zeros(())):
-                counters["evals"] += 1
-                try:
-                    fn(bad, torch.Size((2, 3)), 0, 6) if bad.numel() == 6 else fn(bad, torch.Size((2, 3)), 0, 1)
-                except (ValueError, AssertionError, RuntimeError):
-                    continue
-                raise Violation(f"{name}: non-flat shard of shape {tuple(bad.shape)} accepted", shape=list(shape))
+            for bad in (torch.zeros(2, 3), torch.zeros(6, 1), torch.zeros(1, 6), torch.zeros(()), torch.zeros(1, 1), torch.zeros(1, 1, 1)):
+                for orig in ((2, 3), (3,), (6,), (1,), (1, 1), (2, 1, 3)):
+                    n_ = bad.numel()
+                    if n_ > math.prod(orig):
+                        continue
+                    counters["evals"] += 1
+                    try:
+                        fn(bad, torch.Size(orig), 0, n_)
+                    except (ValueError, AssertionError, RuntimeError, IndexError):
+                        continue
+                    raise Violation(f"{name}: non-flat shard of shape {tuple(bad.shape)} accepted for original shape {orig}", shape=list(orig))
         return {"counters": counters, "sigs": [("nonflat", n) for n in copies]}
     n = math.prod(shape)
     dtype = getattr(torch, case.get("dtype", "float32"))
